@@ -76,13 +76,20 @@ type Report struct {
 	WallMs       float64        `json:"wall_ms"`
 	Unclean      bool           `json:"unclean,omitempty"`
 	Stuck        []string       `json:"stuck,omitempty"`
+	ExtOracle    bool           `json:"ext_oracle,omitempty"` // failures come from an oracle outside the simulator (the race detector): see Prop.ExtOracle
 	choices      []int32
 }
 
 // Prop is one property check.
 type Prop struct {
-	ID  string
-	Run func(t *testing.T, seed uint64, m *Mask) *Report
+	ID string
+	// ExtOracle marks a property judged by an oracle with state of its own outside the simulator (the race
+	// detector: bounded shadow memory with random eviction, addresses that depend on the allocator).  The
+	// execution is still a pure function of the seed and is held to the determinism self-check (signature,
+	// steps); what the oracle reports about one execution may differ slightly from process to process, so
+	// classes are not compared there and a replay is given a few attempts to make the oracle speak again.
+	ExtOracle bool
+	Run       func(t *testing.T, seed uint64, m *Mask) *Report
 }
 
 var registry = map[string]*Prop{}
@@ -215,6 +222,12 @@ func minimise(t *testing.T, p *Prop, seed uint64, class string, first *Report, b
 		runs++
 		r := p.Run(t, seed, m)
 		if hasClass(r, class) {
+			if p.ExtOracle {
+				// keep a reduction only if the external oracle speaks twice in a row for it
+				if r2 := p.Run(t, seed, m); !hasClass(r2, class) {
+					return nil
+				}
+			}
 			return r
 		}
 		return nil
@@ -322,6 +335,16 @@ func TestWorker(t *testing.T) {
 	if g := envInt("VERIF_GOMAXPROCS", 0); g > 0 {
 		runtime.GOMAXPROCS(g)
 	}
+	if simrt.RaceEnabled {
+		// the testing package fails a test during which the race detector spoke; the reports were read from the
+		// race log and turned into failure lines, so leave before it does (deferred flushes run first)
+		defer func() {
+			if p := recover(); p != nil {
+				panic(p)
+			}
+			os.Exit(0)
+		}()
+	}
 	if f := os.Getenv("VERIF_REPLAY"); f != "" {
 		workerReplay(t, f)
 		return
@@ -368,14 +391,28 @@ func TestWorker(t *testing.T) {
 		rep := p.Run(t, seed, nil)
 		rep.Prop = id
 		rep.Seed = seed
+		rep.ExtOracle = p.ExtOracle
 		if os.Getenv("VERIF_TRACE") == "" {
-			// keep lines small
-			if len(rep.Failures) > 6 {
-				rep.Failures = rep.Failures[:6]
+			// keep lines small, but never drop a class: at most 3 failure lines per class
+			per := map[string]int{}
+			kept := rep.Failures[:0:0]
+			for _, f := range rep.Failures {
+				c := f[:indexOf(f, ": ")]
+				if per[c] < 3 {
+					per[c]++
+					kept = append(kept, f)
+				}
 			}
+			rep.Failures = kept
 		}
 		enc.Encode(rep)
 		w.Flush()
+	}
+	if simrt.RaceEnabled {
+		// the testing package marks the test failed as soon as the race detector has reported anything; the
+		// reports have been turned into violation lines above, so the process status must not say FAIL
+		w.Flush()
+		os.Exit(0)
 	}
 }
 
@@ -428,6 +465,14 @@ func workerReplay(t *testing.T, path string) {
 	}
 	warmUp(t, p, rf.Seed)
 	rep := p.Run(t, rf.Seed, rf.Mask)
+	for i := 0; p.ExtOracle && !hasClass(rep, rf.Class) && i < 4; i++ {
+		again := p.Run(t, rf.Seed, rf.Mask)
+		if again.Steps != rep.Steps || again.Sig != rep.Sig {
+			fmt.Printf("NOT-REPRODUCED property=%s class=%s seed=%d: the execution itself differs (%d/%d steps)\n", rf.Property, rf.Class, rf.Seed, rep.Steps, again.Steps)
+			return
+		}
+		rep = again
+	}
 	if hasClass(rep, rf.Class) {
 		fmt.Printf("REPRODUCED property=%s class=%s seed=%d steps=%d\n", rf.Property, rf.Class, rf.Seed, rep.Steps)
 		for _, f := range rep.Failures {
